@@ -167,9 +167,11 @@ def sync_order(ctx):
 # ---------------------------------------------------------------------------------------------
 # C14: no I/O failure is swallowed
 
-FALLIBLE_TY = re.compile(r"Result<.*(io::Error|anyhow::Error|std::io::Error)|^io::CompleteIo$|CompleteIo$|TaskResult<")
+# the local itself is the fallible value (not a channel / container of such values)
+FALLIBLE_TY = re.compile(r"^(std::result::|core::result::)?Result<.*(io::Error|anyhow::Error|std::io::Error)>$|^(io::)?CompleteIo$|^(task::)?TaskResult<")
 # combinators that consume a Result and may throw its error away
 DISCARD_CALL = re.compile(r"Result::<.*>::(or|ok|err|unwrap_or|unwrap_or_else|unwrap_or_default|map_or|map_or_else|is_ok_and|iter)\b|mem::drop|::forget")
+IS_OK_ERR = re.compile(r"Result::<.*>::(is_ok|is_err)$")
 INSPECT_CALL = re.compile(r"Try>::branch|::unwrap|::expect|::is_ok|::is_err|::map_err|::ok\b|FromResidual|join_task|::context|::with_context")
 
 
@@ -178,6 +180,27 @@ def _swallow_ops(cfg):
     tracked = {l for l, t in f.locals.items() if FALLIBLE_TY.search(t)}
     ops = {}
     defs = 0
+    # references taken only to ask is_ok()/is_err(): `_r = &_x;` with _r used by nothing but such calls
+    probe_ref = {}
+    for bb in cfg.order:
+        for s in cfg.blocks[bb].stmts:
+            m = re.match(r"(_\d+) = &(?:mut )?(_\d+);$", s)
+            if m and m.group(2) in tracked:
+                probe_ref[m.group(1)] = m.group(2)
+    for r in list(probe_ref):
+        uses_ok = True
+        for bb in cfg.order:
+            b = cfg.blocks[bb]
+            for s in b.stmts:
+                if re.search(r"\b%s\b" % r, s) and not re.match(r"%s = &" % r, s) and not re.match(r"Storage(Live|Dead)\(%s\)" % r, s):
+                    uses_ok = False
+            if b.call and re.search(r"\b%s\b" % r, b.call[2]) and not IS_OK_ERR.search(b.call[1]):
+                uses_ok = False
+            if b.switch_on and re.search(r"\b%s\b" % r, b.switch_on):
+                uses_ok = False
+        if not uses_ok:
+            del probe_ref[r]
+    arm_clear = {}
     for bb in cfg.order:
         b = cfg.blocks[bb]
         o = []
@@ -186,6 +209,8 @@ def _swallow_ops(cfg):
             if not m:
                 continue
             dst, rhs = m.groups()
+            if dst in probe_ref:
+                continue
             for x in tracked:
                 # any read/move of x or of one of its fields in a statement counts as inspection/escape
                 if re.search(r"\b%s\b" % re.escape(x), rhs) and x != dst:
@@ -195,6 +220,22 @@ def _swallow_ops(cfg):
                 defs += 1
         if b.call:
             dst, callee, args, _t = b.call
+            m_ok = IS_OK_ERR.search(callee)
+            a0 = args.replace("move ", "").replace("copy ", "").strip()
+            if m_ok and a0 in probe_ref:
+                # `r.is_ok()` / `r.is_err()` discharges the obligation only on the arm where r is Ok (nothing
+                # to report there); on the Err arm the value is still owed. Shape: call -> switchInt(result).
+                x = probe_ref[a0]
+                nxt = b.succ[0][1] if len(b.succ) == 1 else None
+                nb = cfg.blocks.get(nxt) if nxt else None
+                arm = None
+                if nb is not None and nb.switch_on and nb.switch_on.strip() == dst and not nb.stmts:
+                    tgt = dict(nb.succ)
+                    arm = tgt.get("otherwise") if m_ok.group(1) == "is_ok" else tgt.get("0")
+                if arm:
+                    arm_clear.setdefault(arm, []).append(("clear", "live" + x))
+                else:
+                    o.append(("clear", "live" + x))
             for x in tracked:
                 if re.search(r"\b%s\b" % re.escape(x), args):
                     if DISCARD_CALL.search(callee):
@@ -220,6 +261,8 @@ def _swallow_ops(cfg):
                     o.append(("bad_if", "live" + x))
         if o:
             ops[bb] = o
+    for bb, o in arm_clear.items():
+        ops[bb] = o + ops.get(bb, [])
     return ops, ["live" + x for x in sorted(tracked)], defs
 
 
@@ -367,7 +410,7 @@ def recover_order(ctx):
     ]
     ops, hits = _events(cfg, table)
     _require(table, hits, "recover")
-    qs = [PQuery("recover: no HT write after truncate_wal", cfg, ops, ["truncated"], {}, key="recover:HT write after WAL truncation"),
+    qs = [PQuery("recover: no HT write after truncate_wal", cfg, ops, ["truncated"], {}, scenario="c03_recover_order", key="recover:HT write after WAL truncation"),
           PQuery("recover: truncate_wal is reachable", cfg, {bb: [("bad", None)] for bb in hits[0]}, [], {}, expect="sat")]
     return qs, {"bitbox::recover @ nomt/src/bitbox/mod.rs"}
 
@@ -796,3 +839,164 @@ def release_after_drain(ctx):
     qs.append(PQuery("IoPool::shutdown: return is reachable", cfg, {bb: [("bad", None)] for bb in rets}, [], {}, expect="sat"))
     enc.add("io::IoPool::shutdown @ nomt/src/io/mod.rs")
     return qs, enc
+
+
+# ---------------------------------------------------------------------------------------------
+# C14: the rollback-log append of a commit (outside Store::commit) poisons on failure
+
+def _err_arm(cfg, call_bb):
+    """block reached when the Result produced by the call in `call_bb` is Err (the `1` arm of the first
+    switch that follows, through `Try::branch`)."""
+    bb = call_bb
+    for _ in range(10):
+        b = cfg.blocks[bb]
+        if b.switch_on:
+            for k, tg in b.succ:
+                if k == "1":
+                    return tg
+            return None
+        if len(b.succ) != 1:
+            return None
+        if bb != call_bb and b.call and not re.search(r"Try>::branch", b.call[1]):
+            return None
+        bb = b.succ[0][1]
+    return None
+
+
+def rollback_append_poison(ctx):
+    """The four commit entry points append the reverse delta to the rollback log before Store::commit.
+    When that append fails the error is returned only after the store was poisoned (the log may hold a
+    torn record and, in three of the four, the in-memory root was already switched)."""
+    prog = ctx.program("nomt")
+    entry = [
+        (r">::commit$", "^FinishedSession$", "FinishedSession::commit"),
+        (r">::try_commit_nonblocking$", "^FinishedSession$", "FinishedSession::try_commit_nonblocking"),
+        (r">::commit$", "^Overlay$", "Overlay::commit"),
+        (r">::try_commit_nonblocking$", "^Overlay$", "Overlay::try_commit_nonblocking"),
+    ]
+    qs, enc = [], set()
+    for rx, a0, nm in entry:
+        f = _fn(prog, rx, "lib.rs", a0)
+        cfg = pathsmt.Cfg(f)
+        calls = [bb for bb in cfg.order if cfg.blocks[bb].call and re.search(r"Rollback::commit_nonblocking|Rollback::commit\b", cfg.blocks[bb].call[1])]
+        if not calls:
+            raise Unmatched("no rollback append in " + nm)
+        ops = {}
+        for bb in calls:
+            arm = _err_arm(cfg, bb)
+            if arm is None:
+                raise Unmatched("%s: the result of the rollback append is not branched on directly (shape not understood)" % nm)
+            ops.setdefault(arm, []).insert(0, ("set", "append_failed"))
+        for bb in cfg.order:
+            b = cfg.blocks[bb]
+            if b.call and re.search(r"Store::poison|Atomic(Bool|::<bool>)::store", b.call[1]) and re.search(r"poison", b.call[1] + (b.call[3] or "")):
+                ops.setdefault(bb, []).append(("clear", "append_failed"))
+            if b.is_return:
+                ops.setdefault(bb, []).append(("bad_if", "append_failed"))
+        qs.append(PQuery("%s: a failed rollback-log append poisons the store before the error is returned" % nm, cfg, ops, ["append_failed"], {},
+                         scenario="c14_fault_sweep_rollback", key="%s:rollback append failure returned without poisoning" % nm))
+        arms = [_err_arm(cfg, bb) for bb in calls]
+        qs.append(PQuery("%s: the append-failed arm is reachable" % nm, cfg, {bb: [("bad", None)] for bb in arms}, [], {}, expect="sat"))
+        enc.add("%s @ nomt/src/lib.rs" % nm)
+    return qs, enc
+
+
+# ---------------------------------------------------------------------------------------------
+# C14: sweep - no fallible value is dropped uninspected, in every function of the storage modules
+
+SWEEP_FILES = r"nomt/src/(store|bitbox|beatree|rollback|seglog|io)/|nomt/src/lib\.rs"
+# values that are capability probes, not I/O on database data: an error deliberately selects the fallback
+SWEEP_EXEMPT_DEF = r"fs_check"
+# functions decided by their own obligations with a larger budget
+SWEEP_SKIP_FN = r"^store::<impl.*>::open$"
+
+
+def _exempt_arms(cfg):
+    """fsyncer worker: a sync result obtained after the handle died has no receiver, so nothing is owed on
+    the arm taken when `if matches!(&*guard, State::HandleDead)` is true. The arm is found structurally:
+    a call whose span lies on such an `if` line, then the first switch on a bool local; its true arm."""
+    import paths
+    f = cfg.fn
+    try:
+        lines = open(os.path.join(paths.REPO, f.file)).read().splitlines()
+    except OSError:
+        return []
+    if_lines = {i + 1 for i, ln in enumerate(lines) if "HandleDead" in ln and ln.strip().startswith("if ") and "matches!" in ln}
+    arms = []
+    for bb in cfg.order:
+        b = cfg.blocks[bb]
+        if not (b.call and b.spans and b.spans[-1] and b.spans[-1][0] == f.file and b.spans[-1][1] in if_lines):
+            continue
+        seen, frontier = set(), [bb]
+        for _ in range(6):
+            nxt = []
+            for x in frontier:
+                for _k, tg in cfg.blocks[x].succ:
+                    if tg not in seen:
+                        seen.add(tg)
+                        nxt.append(tg)
+            hit = [x for x in nxt if cfg.blocks[x].switch_on and f.locals.get(cfg.blocks[x].switch_on.strip()) == "bool"]
+            if hit:
+                t = dict(cfg.blocks[hit[0]].succ).get("otherwise")
+                if t:
+                    arms.append(t)
+                break
+            frontier = nxt
+    return arms
+
+
+def no_swallow_sweep(ctx, shard=0, nshards=1):
+    import zlib
+    prog = ctx.program("nomt")
+    qs, enc, skipped = [], set(), []
+    for nm, fs in sorted(prog.fns.items()):
+        for f in fs:
+            if not f.file or not re.search(SWEEP_FILES, f.file) or "::tests::" in nm or re.search(SWEEP_SKIP_FN, nm):
+                continue
+            if zlib.crc32(nm.encode()) % nshards != shard:
+                continue
+            try:
+                cfg = pathsmt.Cfg(f)
+            except Exception as e:
+                skipped.append(nm)
+                continue
+            ops, flags, defs = _swallow_ops(cfg)
+            if not defs:
+                continue
+            # exemptions
+            for arm in (_exempt_arms(cfg) if f.file.endswith("io/fsyncer.rs") else []):
+                ops[arm] = [("clear", fl) for fl in flags] + ops.get(arm, [])
+            probe = set()
+            for bb in cfg.order:
+                b = cfg.blocks[bb]
+                if b.call and re.search(SWEEP_EXEMPT_DEF, b.call[1]):
+                    probe.add("live" + b.call[0])
+            if probe:
+                ops = {bb: [o for o in v if o[1] not in probe] for bb, v in ops.items()}
+                flags = [x for x in flags if x not in probe]
+            if not flags:
+                continue
+            short = re.sub(r"<impl at nomt/src/([^:]+):\d+:\d+: \d+:\d+>", r"<\1>", nm)
+            qs.append(PMulti("%s: no fallible value is dropped uninspected" % short, cfg, ops, flags, {}, L=120,
+                             scenario=["c14_fault_sweep", "c14_ht_write_fails", "c14_ln_write_fails"], key="%s:swallowed result" % short))
+            enc.add("%s @ %s" % (short, f.file))
+    if not qs:
+        raise Unmatched("sweep shard %d/%d is empty" % (shard, nshards))
+    # vacuity witness for the shard: the first function's return is reachable
+    cfg0 = qs[0].cfg
+    rets = [bb for bb in cfg0.order if cfg0.blocks[bb].is_return]
+    qs.append(PQuery("sweep shard %d: a return is reachable" % shard, cfg0, {bb: [("bad", None)] for bb in rets}, [], {}, expect="sat"))
+    return qs, enc
+
+
+def _mk_sweep(i, n):
+    def f(ctx):
+        return no_swallow_sweep(ctx, i, n)
+    f.__name__ = "no_swallow_sweep_%d" % i
+    f.__doc__ = no_swallow_sweep.__doc__
+    return f
+
+
+SWEEP_SHARDS = 8
+for _i in range(SWEEP_SHARDS):
+    globals()["no_swallow_sweep_%d" % _i] = _mk_sweep(_i, SWEEP_SHARDS)
